@@ -76,6 +76,75 @@ fn classify_mem_disconnect(w: &World, d: Dir, ch: u8) -> Fail {
     )
 }
 
+/// A memory disconnect with a polite, promptly draining application is a known finding or a violation.
+fn mem_disconnects(w: &World, ctx: &mut Ctx) -> Outcome {
+    for i in 0..w.cfg.n_clients {
+        for to_client in [false, true] {
+            let d = Dir { client: i, to_client };
+            if let Some(DisconnectReason::ReceiveChannelError { channel_id, error: ChannelError::ReliableChannelMaxMemoryReached }) = w.receiver_reason(d) {
+                if w.dirs[d.idx()].chans.contains_key(&channel_id) {
+                    if w.prompt_drain {
+                        return Err(classify_mem_disconnect(w, d, channel_id));
+                    } else {
+                        ctx.label("mem_disconnect_undrained");
+                    }
+                }
+            }
+        }
+    }
+    Ok(())
+}
+
+/// Minimal hand-written histories of the two open findings (witnesses).
+fn directed(index: u64, ctx: &mut Ctx) -> Outcome {
+    let cfg = WorldCfg {
+        bytes_per_tick: 60_000,
+        s2c: vec![Chan { id: 0, kind: Kind::Ordered, max_mem: 3000, resend_ms: 100 }],
+        c2s: vec![Chan { id: 0, kind: Kind::Ordered, max_mem: 3000, resend_ms: 100 }],
+        n_clients: 1,
+    };
+    let mut w = World::new(cfg, Oracles { memory: true, release: true, ..Default::default() });
+    w.prompt_drain = true;
+    let d = Dir { client: 0, to_client: true };
+    ctx.nontrivial = true;
+    if index == 0 {
+        // A: one 2401-byte message under a 3000-byte budget
+        ctx.op(&"A: budget 3000, one ordered message of 2401 bytes, no faults");
+        if !w.send(d, 0, 2401, true, 0)? {
+            return Err(Fail::new("directed_setup", "can_send_message refused 2401 bytes under a 3000-byte budget"));
+        }
+        w.advance(16);
+        for pid in w.flush(d)? {
+            w.enqueue(pid, 0);
+        }
+        w.deliver_due(d, None)?;
+        w.step_check()?;
+        mem_disconnects(&w, ctx)?;
+    } else {
+        // B: m0 lost for good, m1.. sent as acks free the sender
+        ctx.op(&"B: budget 3000, ordered m0 (1000 B) always lost, then 1000-byte messages sent whenever can_send_message allows");
+        w.send(d, 0, 1000, true, 0)?;
+        let m0 = w.dirs[d.idx()].chans[&0].msgs[0].mid;
+        w.blackhole = Some((d, 0, m0));
+        for _ in 0..12 {
+            w.send(d, 0, 1000, true, 0)?;
+            w.advance(150);
+            for pid in w.flush(d)? {
+                w.enqueue(pid, 0);
+            }
+            w.deliver_due(d, None)?;
+            w.step_check()?;
+            mem_disconnects(&w, ctx)?;
+            for pid in w.flush(d.rev())? {
+                w.enqueue(pid, 0);
+            }
+            w.deliver_due(d.rev(), None)?;
+            w.step_check()?;
+        }
+    }
+    Ok(())
+}
+
 impl Property for C09 {
     fn id(&self) -> &'static str {
         "C09"
@@ -99,6 +168,12 @@ impl Property for C09 {
     fn required_labels(&self) -> Vec<&'static str> {
         vec!["stale_dup_slice", "quiescence_checked", "prompt_drain", "unrel_fragment_expired", "unrel_bound_checked"]
     }
+    fn enums(&self, _tier: Tier) -> Vec<(&'static str, u64)> {
+        vec![("directed", 2)]
+    }
+    fn run_enum(&self, _name: &str, index: u64, ctx: &mut Ctx) -> Outcome {
+        directed(index, ctx)
+    }
     fn run_choices(&self, ctx: &mut Ctx) -> Outcome {
         let s = spec(ctx.tier);
         let mut last_now = 0u64;
@@ -106,21 +181,7 @@ impl Property for C09 {
             let advanced = w.now_ms != last_now;
             last_now = w.now_ms;
             // memory disconnects
-            for i in 0..w.cfg.n_clients {
-                for to_client in [false, true] {
-                    let d = Dir { client: i, to_client };
-                    if let Some(DisconnectReason::ReceiveChannelError { channel_id, error: ChannelError::ReliableChannelMaxMemoryReached }) = w.receiver_reason(d) {
-                        if w.dirs[d.idx()].chans.contains_key(&channel_id) {
-                            if w.prompt_drain {
-                                let f = classify_mem_disconnect(w, d, channel_id);
-                                return Err(f);
-                            } else {
-                                ctx.label("mem_disconnect_undrained");
-                            }
-                        }
-                    }
-                }
-            }
+            mem_disconnects(w, ctx)?;
             // labels
             for ds in w.dirs.iter() {
                 for cm in ds.chans.values() {
